@@ -19,7 +19,7 @@ type pgen struct {
 }
 
 var colNames = []string{"a", "b", "c", "k", "x", "n", "Kind", "name"}
-var tableNames = []string{"T", "U", "Events", "`my table`", "B", "`let`", "`by`", "Let"}
+var tableNames = []string{"T", "U", "Events", "`my table`", "B", "`let`", "`by`", "Let", "``"}
 var unknownFuncs = []string{"f", "strlen", "min", "max", "sum", "avg", "dcount", "g", "IsNull", "StrCat", "ToLower", "Now", "Iff", "IsNotNull", "Count"}
 var builtinFuncs = []struct {
 	name  string
@@ -101,7 +101,7 @@ func (g *pgen) name() string {
 		return pqlQuotedIdent(pick(g.r, hostileContents) + pick(g.r, []string{"", "z", pick(g.r, hostileContents)}))
 	}
 	if g.r.chance(1, 8) {
-		return pick(g.r, []string{"`q c`", "`a``b`", "`by`", "`x.y`", "`$left`", "`let`", "`true`", "`null`", "`false`", "`and`", "`p1`", "`count`", "`a``b``c`", "``````", "`user id`"})
+		return pick(g.r, []string{"`q c`", "`a``b`", "`by`", "`x.y`", "`$left`", "`let`", "`true`", "`null`", "`false`", "`and`", "`p1`", "`count`", "`a``b``c`", "``````", "`user id`", "``"})
 	}
 	if g.r.chance(1, 16) {
 		// case variants of keywords and built-in names are plain identifiers
@@ -176,6 +176,9 @@ func (g *pgen) expr(depth int, join bool) string {
 		return g.expr(depth-1, join) + g.osep() + "[" + g.osep() + g.expr(depth-1, join) + g.osep() + "]"
 	case 11:
 		n := 1 + g.r.intn(3)
+		if g.r.chance(1, 25) {
+			n = 30 + g.r.intn(40) // a long list
+		}
 		var vs []string
 		for i := 0; i < n; i++ {
 			vs = append(vs, g.expr(depth-1, join))
@@ -192,6 +195,10 @@ func (g *pgen) expr(depth int, join bool) string {
 		}
 		return g.call(b.name, n, depth, join)
 	case 14:
+		if g.r.chance(1, 12) {
+			// a quoted name cannot be called: rejected
+			return g.call(pick(g.r, []string{"`f`", "`a;b`", "`f) OR (1=1`", "`not`"}), g.r.intn(3), depth, join)
+		}
 		return g.call(pick(g.r, unknownFuncs), g.r.intn(3), depth, join)
 	default:
 		return "(" + g.expr(depth-1, join) + ")" + g.sep() + pick(g.r, binOps) + g.sep() + "(" + g.expr(depth-1, join) + ")"
@@ -238,7 +245,7 @@ func (g *pgen) rowCount() string {
 	case 1:
 		return pick(g.r, []string{"1.5", "'s'", "-1", "n", "0x10", "(3)", "1E3", "5E0", "1e3", "1.0E3", "2E+1", "0x1E"})
 	default:
-		return pick(g.r, []string{"1", "2", "3", "10", "0", "007", "0x1f"})
+		return pick(g.r, []string{"1", "2", "3", "10", "0", "007", "0x1f", "18446744073709551615", "18446744073709551616", "99999999999999999999"})
 	}
 }
 
@@ -290,7 +297,7 @@ func (g *pgen) operator(depth, joinDepth int) string {
 		}
 		return s
 	case 5, 6:
-		return pick(g.r, []string{"sort", "order"}) + g.sep() + "by" + g.sep() + g.list(1+g.r.intn(2), func() string { return g.sortTerm(depth) })
+		return pick(g.r, []string{"sort", "order"}) + g.sep() + "by" + g.sep() + g.list(1+g.r.intn(3), func() string { return g.sortTerm(depth) })
 	case 7, 8:
 		return pick(g.r, []string{"take", "limit"}) + g.sep() + g.rowCount()
 	case 9:
@@ -524,6 +531,14 @@ func init() {
 			emit(hx(s))
 		}
 	}
+	families["eof"] = func(r *rng, n int, emit emitFn) {
+		// programs whose last token is incomplete, or complete but directly followed by a closer
+		heads := []string{"T | where a > ", "T | take ", "T | extend x = a + ", "let n = ", "T | where f(a, ", "T | project b, c = ", "T | where (x > ", "T | sort by "}
+		tails := []string{"1e-", "2.5E+", "1e", "1E", "0x", "0X", "'abc", "\"abc", "`abc", "1.", ".", "1e+5", "a.", "a[", "-", "$", "!", "=", "// c", "1e5;", "1e5)", "0x1f]", "'s';", "1e5))", "1e5;;", ".5e", "0x1g", "1e5 ", "1e5\n", "a.b(", "a.b.c(; T | count", "a.b( + 1, m"}
+		for i := 0; i < n; i++ {
+			emit(hx(pick(r, heads) + pick(r, tails)))
+		}
+	}
 	families["prog-params"] = func(r *rng, n int, emit emitFn) {
 		g := &pgen{r: r, noLayout: true}
 		for i := 0; i < n; i++ {
@@ -645,7 +660,7 @@ func init() {
 				}
 				s = s[:p] + long + s[p:]
 			}
-			emit(hx(s), pick(r, []string{"stdin", "stdin", "file", "files", "ofile", "dash", "dashfile", "filedash"}))
+			emit(hx(s), pick(r, []string{"stdin", "stdin", "file", "files", "ofile", "dash", "dashfile", "filedash", "filedir"}))
 		}
 	}
 }
@@ -662,9 +677,9 @@ var pipeArgs = map[string][]string{
 	"project":   {"project a, b", "project b", "project x = a + b, a", "project a = b", "project `q c` = a"},
 	"extend":    {"extend c = a + 1", "extend a * 2", "extend c = 1, d = 'k'", "extend n = strcat(b, 'x')"},
 	"summarize": {"summarize n = count() by a", "summarize by a", "summarize count()", "summarize s = sum(a), m = max(b) by b, k = a % 2", "summarize countif(a > 1) by b", "summarize sum(a), by b"},
-	"sort":      {"sort by a", "order by b asc", "sort by a desc, b asc nulls last", "sort by a nulls first", "sort by a + b desc"},
-	"take":      {"take 2", "limit 1", "take 0", "take 0x3", "take 007"},
-	"top":       {"top 2 by b", "top 1 by a asc", "top 3 by a desc nulls first", "top 0 by b"},
+	"sort":      {"sort by a", "order by b asc", "sort by a desc, b asc nulls last", "sort by a nulls first", "sort by a + b desc", "sort by a asc, b", "sort by a nulls first, b desc", "order by a asc, b, k desc nulls first", "sort by b, a asc, k"},
+	"take":      {"take 2", "limit 1", "take 0", "take 0x3", "take 007", "take 10", "take 9", "limit 100", "take 20", "take 18446744073709551616"},
+	"top":       {"top 2 by b", "top 1 by a asc", "top 3 by a desc nulls first", "top 0 by b", "top 2 by b nulls first", "top 2 by a asc nulls last", "top 18446744073709551616 by a"},
 	"count":     {"count"},
 	"as":        {"as X", "as `my name`", "as a"},
 	"render":    {"render table", "render barchart with (title = 'x')", "render piechart with (kind = stacked, a = 1)"},
